@@ -122,6 +122,9 @@ theorem slot_step (h : Heap) (hi : Inv h) (op : Op) (id : Nat) (sl : Slot)
         rw [hs] at hsl; cases hsl
         exact ⟨.temp s true, by simp only [getElem?_set']; grind, .mark _ _, by grind⟩
       · exact ⟨sl, by simp only [getElem?_set']; grind, .same _, by grind⟩
+  | syncTemp t =>
+    simp only [step, syncTempCounter]
+    exact ⟨sl, by simp only [getElem?_append_replicate]; grind, .same _, by grind⟩
   | sweep w =>
     simp only [step, sweep]
     split
